@@ -37,6 +37,19 @@ XY2LL == /\ Is("xy2ll")
                        Check("xy2ll.lat", ra.kind = "value" /\ Ev.lat * ra.den = ra.num * Q * Q)>>))
          /\ UNCHANGED <<tid, S>>
 
+\* --- Grid.lonlat(method = nearest): the coordinate table's value at the cell that contains the position (either neighbour on a cell edge);
+\*     unit 2^-10 deg.  (method = bilinear is logged as an ordinary xy2ll event.)
+NearCells(v, Q) == { (2 * v + Q - 1) \div (2 * Q), (2 * v + Q) \div (2 * Q) }
+LLNearest == /\ Is("llnearest")
+             /\ Mark(All(<<Check("xy2ll.lattice", ~Ev.off),
+                           Check("lonlat.nearest_cell", \E ci \in NearCells(Ev.x, Ev.Q), cj \in NearCells(Ev.y, Ev.Q) :
+                                     cj + 1 \in DOMAIN S.lon /\ ci + 1 \in DOMAIN S.lon[cj + 1] /\ Ev.lon = S.lon[cj + 1][ci + 1] /\ Ev.lat = S.lat[cj + 1][ci + 1])>>))
+             /\ UNCHANGED <<tid, S>>
+\* --- onland is the complement of atsea
+LandSea == /\ Is("landsea")
+           /\ Mark(Check("grid.onland_is_not_atsea", Len(Ev.land) = Len(Ev.sea) /\ \A k \in 1..Len(Ev.sea) : Ev.land[k] = ~Ev.sea[k]))
+           /\ UNCHANGED <<tid, S>>
+
 \* --- round trip: position (2^-16 cell) -> lon/lat -> position ; residual in lon/lat (2^-20 deg) below the solver
 \*     tolerance  (dlon^2 + dlat^2 < 1e-7 deg^2  =  109951 quanta^2).  The solver tolerance is stated in degrees; with cells of
 \*     >= 8/1024 degree it corresponds to at most ~0.05 cell, so the position clause (1/8 cell) only catches gross errors
@@ -67,7 +80,7 @@ LLOut == /\ Is("llrecord")
                        Check("llrecord.lat", Len(Ev.lat) = Len(Ev.x) => \A k \in 1..Len(Ev.x) : Same20(Interp20(S.lat, Ev.x[k], Ev.y[k]), Ev.lat[k]))>>))
          /\ UNCHANGED <<tid, S>>
 Crash == Is("crash") /\ Mark(Check("run.crashed", FALSE)) /\ UNCHANGED <<tid, S>>
-Next == Setup \/ Eof \/ S2D \/ XY2LL \/ Round \/ LLRel \/ LLOut \/ Crash
+Next == Setup \/ Eof \/ S2D \/ XY2LL \/ Round \/ LLRel \/ LLOut \/ Crash \/ LLNearest \/ LandSea
 Spec == Init /\ [][Next]_vars
 Accepted == TLCGet("stats").diameter - 1 = Len(Tr)
 =============================================================================
